@@ -141,6 +141,16 @@ def _lib_decode(cls, raw):
     return out
 
 
+def _zz_len(n):
+    """bytes of the zig-zag varint of n (independent of the code)"""
+    z = (n << 1) ^ (n >> 63)
+    k = 1
+    while z >= 0x80:
+        z >>= 7
+        k += 1
+    return k
+
+
 def d1_v2_builder(src, max_records=3, small=False):
     keys = [None, b"k", b"K" * 64] if small else KEYS
     values = [None, b"v", VALUES[-1]] if small else VALUES
@@ -162,6 +172,15 @@ def d1_v2_builder(src, max_records=3, small=False):
                                      base_sequence=seq, batch_size=batch_size)
     accepted = []
     for i, r in enumerate(recs):
+        # size accounting asked for before the record is appended (what the producer's batching logic uses)
+        alone = len(REF.encode_v2(0, [dict(r, offset=0)])) - 61          # length varint + body of this record alone
+        body = next(alone - vl for vl in range(1, 6) if _zz_len(alone - vl) == vl)
+        kvh = body - 3 + (1 if src.twin and i == 0 else 0)              # attrs, offset delta 0, timestamp delta 0: one byte each
+        src.check(_DefaultRecordBatchBuilderPy.size_of(r["key"], r["value"], r["headers"]) == kvh,
+                  "size_of(key, value, headers) is not the number of bytes these fields occupy in the record", record=i, want=kvh)
+        src.check(_DefaultRecordBatchBuilderPy.estimate_size_in_bytes(r["key"], r["value"], r["headers"]) >= 61 + alone,
+                  "estimate_size_in_bytes is not an upper bound of a batch holding this record", record=i)
+        predicted = b.size_in_bytes(r["offset"], r["timestamp"], r["key"], r["value"], r["headers"])
         md = b.append(r["offset"], r["timestamp"], key=r["key"], value=r["value"], headers=r["headers"])
         # independent statement of the limit: a record is refused iff the uncompressed batch would exceed
         # batch_size and it is not the first record
@@ -171,8 +190,13 @@ def d1_v2_builder(src, max_records=3, small=False):
                   "append() accept/refuse decision disagrees with the encoded size vs batch_size",
                   record=i, would_be=would, batch_size=batch_size)
         if md is not None:
+            prev = len(REF.encode_v2(0, accepted)) if accepted else 61
             accepted.append(r)
             src.check(b.size() == would, "size() disagrees with the bytes an independent encoder produces", got=b.size(), want=would)
+            src.check(md.size == would - prev, "metadata.size of the appended record is not the number of bytes it added",
+                      got=md.size, want=would - prev)
+            src.check(predicted == would - prev, "size_in_bytes() asked before append() is not the number of bytes the record then took",
+                      got=predicted, want=would - prev)
     raw = bytes(b.build())
     d = REF.decode_v2(raw)
     info = dict(records=len(recs), accepted=len(accepted), gzip=codec, batch_size=batch_size)
